@@ -9,5 +9,5 @@ git -C /repo worktree add -q --detach $scratch HEAD || exit 2
 git -C $scratch apply /verif/seeded/$id/patch.diff || { echo "patch does not apply"; git -C /repo worktree remove --force $scratch; exit 2; }
 VERIF_REPO=$scratch VERIF_SEED=${VERIF_SEED:-1} python3 verify.py $prop --tier $tier 2>&1 | tail -8; rc=${PIPESTATUS[0]}
 git -C /repo worktree remove --force $scratch
-rm -f ${VERIF_DIR:-/verif}/.build/go.*.mod /verif/.build/go.*.sum
+
 echo "try_seeded $id $prop $tier exit=$rc"
